@@ -165,25 +165,35 @@ Qed.
 Lemma Sep_new_em_vals h vs : wf h -> Sep h -> Sep (new_em_vals h vs).
 Proof. intros W S. unfold new_em_vals. apply Sep_push_em_fresh; auto. Qed.
 
-Lemma Sep_push_tr_fresh h ts vs :
-  wf h -> Sep h -> Sep (push_tr (alloc h vs) (mkTR ts (new_locs h (length vs)))).
+Lemma Sep_alloc_tl h ts : Sep h -> Sep (alloc_tl h ts).
+Proof. apply Sep_same; reflexivity. Qed.
+Lemma Sep_set_tl h tl ts : Sep h -> Sep (set_tl h tl ts).
+Proof. apply Sep_same; reflexivity. Qed.
+
+Lemma Sep_push_tr_fresh h h1 tl vs :
+  wf h -> Sep h -> objs h1 = objs (alloc h vs) -> hnd h1 = hnd h -> ems h1 = ems h -> trs h1 = trs h ->
+  tcs h1 = tcs h ->
+  Sep (push_tr h1 (mkTR tl (new_locs h (length vs)))).
 Proof.
-  intros W (S1 & S2 & S3). split; [|split]; auto.
-  - apply NoDup_objs_alloc; auto.
+  intros W (S1 & S2 & S3) E1 E2 E3 E4 E5. split; [|split].
+  - hs. rewrite E1. apply NoDup_objs_alloc; auto.
   - eapply (sep_grow (length (objs h)) (roots h) _ (length vs) (roots_lt h W) S2).
-    intros a. unfold roots; hs. unfold new_locs. rewrite !cnt_app, cnt_concat_snoc. simpl. nlia.
+    intros a. unfold roots; hs. rewrite E2, E3, E4. unfold new_locs. rewrite !cnt_app, cnt_concat_snoc. simpl. nlia.
+  - hs. rewrite E5. exact S3.
 Qed.
 
-Lemma Sep_tr_append_fresh h k tr ts v :
+Lemma Sep_tr_append_fresh h h1 k tr tl v :
   wf h -> Sep h -> nth_error (trs h) k = Some tr ->
-  Sep (set_tr (alloc h [v]) k (mkTR ts (tr_drops tr ++ new_locs h 1))).
+  objs h1 = objs (alloc h [v]) -> hnd h1 = hnd h -> ems h1 = ems h -> trs h1 = trs h -> tcs h1 = tcs h ->
+  Sep (set_tr h1 k (mkTR tl (tr_drops tr ++ new_locs h 1))).
 Proof.
-  intros W (S1 & S2 & S3) E. split; [|split]; auto.
-  - apply NoDup_objs_alloc; auto.
+  intros W (S1 & S2 & S3) E E1 E2 E3 E4 E5. split; [|split].
+  - hs. rewrite E1. apply NoDup_objs_alloc; auto.
   - eapply (sep_grow (length (objs h)) (roots h) _ 1 (roots_lt h W) S2).
-    intros a. unfold roots; hs. unfold new_locs. rewrite !cnt_app.
-    pose proof (cnt_concat_upd tr_drops (trs h) k tr (mkTR ts (tr_drops tr ++ seq (length (objs h)) 1)) a E) as X.
+    intros a. unfold roots; hs. rewrite E2, E3, E4. unfold new_locs. rewrite !cnt_app.
+    pose proof (cnt_concat_upd tr_drops (trs h) k tr (mkTR tl (tr_drops tr ++ seq (length (objs h)) 1)) a E) as X.
     cbn [e_mem tr_drops tc_ems] in X. rewrite cnt_app in X. nlia.
+  - hs. rewrite E5. exact S3.
 Qed.
 
 Lemma Sep_set_store h s v : Sep h -> Sep (set_store h s v).
@@ -222,8 +232,8 @@ Proof.
 Qed.
 
 (* time-course tables *)
-Lemma Sep_push_tc h h1 ts n :
-  wf h -> Sep h1 -> tcs h1 = tcs h -> Sep (push_tc h1 (mkTC ts (new_cids h n))).
+Lemma Sep_push_tc h h1 tl n :
+  wf h -> Sep h1 -> tcs h1 = tcs h -> Sep (push_tc h1 (mkTC tl (new_cids h n))).
 Proof.
   intros W (S1 & S2 & S3) E. split; [|split]; auto.
   eapply (sep_grow (length (ems h)) (concat (map tc_ems (tcs h))) _ n (tc_cids_lt h W)).
@@ -231,25 +241,25 @@ Proof.
   - intros a. hs. rewrite E, cnt_concat_snoc. simpl. unfold new_cids. nlia.
 Qed.
 
-Lemma Sep_tc_append h h1 t tc ts :
+Lemma Sep_tc_append h h1 t tc tl :
   wf h -> Sep h1 -> tcs h1 = tcs h -> nth_error (tcs h) t = Some tc ->
-  Sep (set_tc h1 t (mkTC ts (tc_ems tc ++ [length (ems h)]))).
+  Sep (set_tc h1 t (mkTC tl (tc_ems tc ++ [length (ems h)]))).
 Proof.
   intros W (S1 & S2 & S3) E Et. split; [|split]; auto.
   eapply (sep_grow (length (ems h)) (concat (map tc_ems (tcs h))) _ 1 (tc_cids_lt h W)).
   - rewrite <- E. exact S3.
   - intros a. hs. rewrite E.
-    pose proof (cnt_concat_upd tc_ems (tcs h) t tc (mkTC ts (tc_ems tc ++ [length (ems h)])) a Et) as X.
+    pose proof (cnt_concat_upd tc_ems (tcs h) t tc (mkTC tl (tc_ems tc ++ [length (ems h)])) a Et) as X.
     cbn [tc_ems] in X. rewrite cnt_app in X. unfold new_cids. simpl seq. nlia.
 Qed.
 
-Lemma Sep_tc_clear h t tc :
-  wf h -> Sep h -> nth_error (tcs h) t = Some tc -> Sep (set_tc h t (mkTC [] [])).
+Lemma Sep_tc_clear h t tc tl ts :
+  wf h -> Sep h -> nth_error (tcs h) t = Some tc -> Sep (set_tc (alloc_tl h ts) t (mkTC tl [])).
 Proof.
   intros W (S1 & S2 & S3) Et. split; [|split]; auto.
   eapply (sep_grow (length (ems h)) (concat (map tc_ems (tcs h))) _ 0 (tc_cids_lt h W) S3).
   intros a. hs.
-  pose proof (cnt_concat_upd tc_ems (tcs h) t tc (mkTC [] []) a Et) as X. cbn [tc_ems] in X.
+  pose proof (cnt_concat_upd tc_ems (tcs h) t tc (mkTC tl []) a Et) as X. cbn [tc_ems] in X.
   change (cnt [] a) with 0 in X. simpl seq. change (cnt [] a) with 0. nlia.
 Qed.
 
@@ -284,6 +294,23 @@ Proof.
   - apply seq_NoDup.
   - intros s Hs Hin. apply in_seq in Hs.
     pose proof (wf_objs _ W) as X. rewrite Forall_forall in X. apply X in Hin. lia.
+Qed.
+
+Lemma Sep_build_tc h es ts :
+  wf h -> Forall (fun e => locs_ok h (e_mem e)) es -> Sep h -> Sep (fst (build_tc h es ts)).
+Proof.
+  intros W H S. unfold build_tc. destruct (copy_ems h es) as [h1|] eqn:Ec; simpl; auto.
+  match goal with |- context [if ?b then _ else _] => destruct b end; simpl; auto.
+  apply Sep_push_tc; auto.
+  - apply Sep_alloc_tl. apply (Sep_copy_ems h es h1 W H S Ec).
+  - apply copy_ems_tables in Ec. simpl. tauto.
+Qed.
+
+Lemma Sep_build_tr h vs ts : wf h -> Sep h -> Sep (fst (build_tr h vs ts)).
+Proof.
+  intros W S. unfold build_tr. destruct (same_dims vs); simpl; auto.
+  match goal with |- context [if ?b then _ else _] => destruct b end; simpl; auto.
+  apply Sep_push_tr_fresh; auto.
 Qed.
 
 (* ------------------------------------------------------------------------------------ *)
@@ -324,32 +351,44 @@ Proof.
   - (* merge *) unfold exec_merge. dm; simpl; auto; try (apply Sep_set_store; auto);
       try (apply Sep_new_hnd; auto).
   - (* tcnew *) unfold exec_tcnew. destruct (mapM (nth_error (ems h)) cs) as [es|] eqn:E; simpl; auto.
-    destruct (copy_ems h es) as [h1|] eqn:Ec; simpl; auto.
-    match goal with |- context [if ?b then _ else _] => destruct b end; simpl; auto.
-    apply Sep_push_tc; auto.
-    + apply (Sep_copy_ems h es h1 W (wf_mapM_ems _ _ _ W E) S Ec).
-    + apply copy_ems_tables in Ec. tauto.
+    apply Sep_build_tc; auto. eapply wf_mapM_ems; eauto.
   - (* tcappend *) unfold exec_tcappend. destruct (nth_error (tcs h) t) as [tc|] eqn:Et; simpl; auto.
     destruct (nth_error (ems h) c) as [e|]; simpl; auto.
     destruct (vals_of h (e_mem e)) as [vs|]; simpl; auto.
-    apply Sep_tc_append; auto. apply Sep_new_em_vals; auto.
+    destruct (times_of h (tc_tl tc)) as [ts|]; simpl; auto.
+    apply Sep_tc_append; auto. apply Sep_set_tl, Sep_new_em_vals; auto.
   - (* tcappend_bad *) unfold exec_tcappend_bad. dm; simpl; auto.
   - (* tcslice *) unfold exec_tcslice. destruct (nth_error (tcs h) t) as [tc|] eqn:Et; simpl; auto.
+    destruct (times_of h (tc_tl tc)); simpl; auto.
     destruct (mapM (nth_error (ems h)) (slice lo hi (tc_ems tc))) as [es|] eqn:E; simpl; auto.
-    destruct (copy_ems h es) as [h1|] eqn:Ec; simpl; auto.
-    match goal with |- context [if ?b then _ else _] => destruct b end; simpl; auto.
-    apply Sep_push_tc; auto.
-    + apply (Sep_copy_ems h es h1 W (wf_mapM_ems _ _ _ W E) S Ec).
-    + apply copy_ems_tables in Ec. tauto.
+    apply Sep_build_tc; auto. eapply wf_mapM_ems; eauto.
   - (* tcclear *) unfold exec_tcclear. destruct (nth_error (tcs h) t) as [tc|] eqn:Et; simpl; auto.
     eapply Sep_tc_clear; eauto.
-  - (* trnew *) unfold exec_trnew. dm; simpl; auto; apply Sep_push_tr_fresh; auto.
+  - (* trnew *) unfold exec_trnew. dm; simpl; auto; apply Sep_build_tr; auto.
   - (* trappend *) unfold exec_trappend. destruct (nth_error (trs h) k) as [tr|] eqn:Et; simpl; auto.
-    dm; simpl; auto; apply Sep_tr_append_fresh; auto.
+    destruct (nth_error (hnd h) i) as [l|]; simpl; auto.
+    destruct (val_of h l) as [v|]; simpl; auto.
+    destruct (mapM (val_of h) (tr_drops tr)) as [dvs|]; simpl; auto.
+    destruct (times_of h (tr_tl tr)) as [ts0|]; simpl; auto.
+    match goal with |- context [if ?b then _ else _] => destruct b end; simpl; auto.
+    apply (Sep_tr_append_fresh h _ k tr (tr_tl tr) v); auto.
   - (* trappend_bad *) unfold exec_trappend_bad. dm; simpl; auto.
-  - (* trslice *) unfold exec_trslice. dm; simpl; auto; apply Sep_push_tr_fresh; auto.
+  - (* trslice *) unfold exec_trslice. dm; simpl; auto; apply Sep_build_tr; auto.
   - (* tlnew *) unfold exec_tlnew. dm; simpl; auto; try (eapply Sep_same; [| | |exact S]; reflexivity).
   - (* tlremove *) unfold exec_tlremove. dm; simpl; auto; try (eapply Sep_same; [| | |exact S]; reflexivity).
+  - (* tccopy *) unfold exec_tccopy. destruct (nth_error (tcs h) t) as [tc|] eqn:Et; simpl; auto.
+    destruct (times_of h (tc_tl tc)); simpl; auto.
+    destruct (mapM (nth_error (ems h)) (tc_ems tc)) as [es|] eqn:E; simpl; auto.
+    apply Sep_build_tc; auto. eapply wf_mapM_ems; eauto.
+  - (* tcnewl *) unfold exec_tcnewl. destruct (mapM (nth_error (ems h)) cs) as [es|] eqn:E; simpl; auto.
+    destruct (nth_error (tvars h) j); simpl; auto. destruct (times_of h t); simpl; auto.
+    apply Sep_build_tc; auto. eapply wf_mapM_ems; eauto.
+  - (* trcopy *) unfold exec_trcopy. dm; simpl; auto; apply Sep_build_tr; auto.
+  - (* trnewl *) unfold exec_trnewl. dm; simpl; auto; apply Sep_build_tr; auto.
+  - (* tlistnew *) unfold exec_tlistnew. apply (Sep_same h); try reflexivity. exact S.
+  - (* tlistappend *) unfold exec_tlistappend. dm; simpl; auto; apply (Sep_same h); try reflexivity; exact S.
+  - (* tlistset *) unfold exec_tlistset. destruct (nth_error (tvars h) j) as [tl|]; simpl; auto.
+    destruct (times_of h tl) as [ts0|]; simpl; auto. destruct (i <? length ts0); simpl; auto.
 Qed.
 
 Theorem Sep_run os : forall h, wf h -> Sep h -> Forall (fun o => sep_op o = true) os -> Sep (run h os).
